@@ -42,6 +42,9 @@ class C08(Prop):
         benign = enc_struct(gen.rand_object(rng))
         def case(src, obj, stream, raw=None, nontrivial=True):
             ops = "addfn:%s:void;dump;prepare:%s;dump;exec:0;run:0;exec:1;dump" % (vlib.hx("t"), rng.choice(["opt", "noopt"]))
+            if rng.random() < 0.4:
+                # a second Prepare that fails (the host swapped in a script that does not parse), then everything again
+                ops += ";badprepare;dump;exec:1;run:1;prepare:%s;dump;exec:1" % rng.choice(["opt", "noopt"])
             script = raw.hex() if raw is not None else vlib.hx(src)
             return Case("run", {"script": script, "objs": obj + ";" + benign, "ops": ops}, stream, nontrivial=nontrivial)
         for src in FAULTY:
@@ -54,6 +57,11 @@ class C08(Prop):
                         "return (A == B) || (B in C) || !A;", "return A[0];", "return B[0];", "return C[0];", "x = A[0]; return x;", "return [A[0], B[1], C[2]][0];",
                         "function f(a) { return a; } return f(A[0]);", "foreach v in A { return v; } return 1;", "foreach v in C { t(v); } return len(C);"]:
                 out.append(case(src, obj, "hostile-object"))
+        # maps that contain themselves, and maps nested around the machine's nesting limit
+        for obj in ["c", "n3", "n4998", "n4999", "n5000", "n5001", "n5200"]:
+            for src in ["return a;", "return type(self);", "x = self; n = 0; while (x) { x = x[\"self\"]; n = n + 1; } return n;",
+                        "x = self; n = 0; while (x) { if (x[\"leaf\"]) { return [n, x[\"leaf\"]]; } x = x[\"self\"]; n = n + 1; } return n;"]:
+                out.append(case(src, obj, "nested-maps"))
         n = 30000 if tier == "thorough" else 1500
         seeds = [gen.Gen(rng, max_depth=2).program(nstmts=rng.randint(1, 5), nfuncs=rng.randint(0, 2), depth=2) for _ in range(60)]
         d = os.path.join(vlib.REPO, "_examples", "scripts")
